@@ -8,8 +8,8 @@ from props import rt
 PID = "C08"
 LEVEL = "proof"
 MODULE = "Sigc.Props.C08"
-EXTRA_MODULES = ("Sigc.Props.Refine", "Sigc.Props.SpecK", "Sigc.Props.SpecProps",)   # refinement P ⊑ S', S' ≡ S on runs clear of the known findings, the statements read off S
-REQUIRED = ["Sigc.C08.consistent", "Sigc.C08.consistent_quiescent", "Sigc.C08.propagates", "Sigc.C08.runBody_stops_at_exc", "Sigc.C08.emitLoop_stops_at_exc", "Sigc.Refine.refines", "Sigc.Refine.runProgram_refines", "Sigc.SpecK.model_refines_pure_spec"]
+EXTRA_MODULES = ("Sigc.Props.Refine", "Sigc.Props.Fuel", "Sigc.Props.SpecK", "Sigc.Props.SpecProps",)   # refinement P ⊑ S', S' ≡ S on runs clear of the known findings, the statements read off S
+REQUIRED = ["Sigc.C08.consistent", "Sigc.C08.consistent_quiescent", "Sigc.C08.propagates", "Sigc.C08.runBody_stops_at_exc", "Sigc.C08.emitLoop_stops_at_exc", "Sigc.Fuel.terminates", "Sigc.Fuel.runProgram_fuel_independent", "Sigc.Refine.refines", "Sigc.Refine.runProgram_refines", "Sigc.SpecK.model_refines_pure_spec"]
 TRUSTED = rt.TRUSTED_RT
 ASSUMPTIONS = rt.ASSUMPTIONS_RT + []
 PARTIAL = []
